@@ -26,7 +26,7 @@ const (
 
 // Op is one call of an actor. Transactional kinds: begin set del insert get bget iter riter
 // lock commit rollback ts snapget snapbget snapiter snapriter locate locend locrange
-// scanlocks resolverange delrange split sleep. Raw kinds: put get del bget bput bdel scan
+// scanlocks resolverange delrange destroyrange split sleep. Raw kinds: put get del bget bput bdel scan
 // rscan delrange checksum cas getttl locate sleep.
 type Op struct {
 	Kind string   `json:"k"`
@@ -39,6 +39,7 @@ type Op struct {
 	Pess  bool `json:"pess,omitempty"`
 	Async bool `json:"async,omitempty"`
 	OnePC bool `json:"onepc,omitempty"`
+	Pipe  bool `json:"pipelined,omitempty"`
 	// lock
 	NoWait  bool `json:"nowait,omitempty"`
 	RetVals bool `json:"retvals,omitempty"`
@@ -63,8 +64,7 @@ type Actor struct {
 
 // SplitSpec names a region border: the prefix of keyspace Ks followed by the logical key Key
 // (Key "" = exactly the keyspace's first key), or, with Ks = -1, one of the special borders
-// "mode" (the one-byte mode prefix), "p3" (the first three bytes of A's prefix), "end2" (the end
-// bound of B2).
+// "mode" (the one-byte mode prefix), "end2" (the end bound of B2).
 type SplitSpec struct {
 	Ks  int    `json:"ks"`
 	Key string `json:"key"`
@@ -167,7 +167,7 @@ var topoKinds = []simkit.Fate{simkit.TopoSplit, simkit.TopoSplit, simkit.TopoLea
 func genLayout(r *rand.Rand, sc *Scenario) {
 	aligned := r.Intn(10) < 3
 	var cands []SplitSpec
-	alignedCands := []SplitSpec{{ksB1, ""}, {ksA, ""}, {ksB2, ""}, {-1, "end2"}, {-1, "mode"}, {-1, "p3"}}
+	alignedCands := []SplitSpec{{ksB1, ""}, {ksA, ""}, {ksB2, ""}, {-1, "end2"}, {-1, "mode"}}
 	cands = append(cands, alignedCands...)
 	if !aligned {
 		for ks := 0; ks < 3; ks++ {
@@ -225,6 +225,7 @@ func genLayout(r *rand.Rand, sc *Scenario) {
 }
 
 type txnGen struct {
+	sc     *Scenario
 	r      *rand.Rand
 	ks     int
 	actor  int
@@ -253,7 +254,24 @@ func (g *txnGen) scanBounds(rev bool) (lo, hi string) {
 	if rev && hi == "" && !g.revUnb {
 		hi = pick(g.r, []string{"~", "z", "h", "@2:#9"})
 	}
+	// an inverted range is a caller error the mock server cannot take (it panics); TiKV answers nothing
+	if hi != "" && string(g.sc.resolve(lo)) > string(g.sc.resolve(hi)) {
+		lo, hi = hi, lo
+	}
 	return
+}
+
+// resolve turns the "@<i>:" notation into bytes (same rule as world.key).
+func (sc *Scenario) resolve(s string) []byte {
+	if len(s) >= 3 && s[0] == '@' && s[2] == ':' && s[1] >= '0' && s[1] <= '2' {
+		mode := byte('x')
+		if sc.Kind == "raw" {
+			mode = 'r'
+		}
+		id := [3]uint32{sc.KsA, sc.KsA - 1, sc.KsA + 1}[s[1]-'0']
+		return append([]byte{mode, byte(id >> 16), byte(id >> 8), byte(id)}, s[3:]...)
+	}
+	return []byte(s)
 }
 
 func (g *txnGen) read(slot int, snap bool) {
@@ -273,7 +291,10 @@ func (g *txnGen) read(slot int, snap bool) {
 		op.Kind, op.Keys = pfx+"get", []string{pick(g.r, pool)}
 	case 1:
 		op.Kind, op.Keys = pfx+"bget", subset(g.r, pool, 1, 6)
-		if g.r.Intn(4) == 0 {
+		// (inside a transaction a repeated key is not generated: BufferBatchGetter answers a key that
+		// the transaction deleted with the snapshot's value when the key is listed twice - a defect
+		// of transaction-level read-your-writes, property C07, unrelated to the codec)
+		if snap && g.r.Intn(4) == 0 {
 			op.Keys = append(op.Keys, op.Keys[0])
 		}
 	case 2, 3:
@@ -285,7 +306,7 @@ func (g *txnGen) read(slot int, snap bool) {
 	}
 	if op.Kind == pfx+"iter" || op.Kind == pfx+"riter" {
 		op.Batch = []int{0, 1, 2, 3, 5}[g.r.Intn(5)]
-		op.KeyOnly = g.r.Intn(6) == 0
+		op.KeyOnly = snap && g.rBack && g.r.Intn(5) == 0 // the mock's transactional scan ignores key_only
 		if g.r.Intn(3) == 0 {
 			op.Limit = 1 + g.r.Intn(4)
 		}
@@ -309,7 +330,30 @@ func (g *txnGen) begin(slot int, pess bool) {
 // episode appends one self-contained group of calls.
 func (g *txnGen) episode() {
 	r := g.r
-	switch x := r.Intn(20); {
+	x := r.Intn(20)
+	if g.rBack && r.Intn(8) == 0 {
+		x = 100
+	}
+	switch {
+	case x == 100: // a pipelined transaction: writes are flushed to the store while it runs, reads of its own flushed writes go to the store
+		g.add(Op{Kind: "begin", Slot: 0, Pipe: true})
+		for i, n := 0, 3+r.Intn(6); i < n; i++ {
+			switch r.Intn(6) {
+			case 0:
+				g.add(Op{Kind: "del", Slot: 0, Keys: []string{pick(r, pool)}})
+			case 1:
+				g.add(Op{Kind: "get", Slot: 0, Keys: []string{pick(r, pool)}})
+			case 2:
+				g.add(Op{Kind: "bget", Slot: 0, Keys: subset(r, pool, 1, 6)})
+			default:
+				g.add(Op{Kind: "set", Slot: 0, Keys: []string{pick(r, pool)}, Vals: []string{g.val()}})
+			}
+		}
+		if r.Intn(8) == 0 {
+			g.add(Op{Kind: "rollback", Slot: 0})
+		} else {
+			g.add(Op{Kind: "commit", Slot: 0})
+		}
 	case x < 9: // one transaction
 		pess := r.Intn(3) == 0
 		g.begin(0, pess)
@@ -392,12 +436,23 @@ func (g *txnGen) episode() {
 			g.read(0, true)
 		}
 	default: // calls that are not part of a transaction
-		switch r.Intn(8) {
-		case 0, 1:
+		switch r.Intn(10) {
+		case 8:
+			lo, hi := g.scanBounds(false)
+			g.add(Op{Kind: "destroyrange", Lo: lo, Hi: hi})
+		case 9:
+			// a pessimistic transaction that lives long enough for its lock keeper to send heart beats
+			k := pick(r, pool)
+			g.begin(0, true)
+			g.add(Op{Kind: "lock", Slot: 0, Keys: []string{k}})
+			g.add(Op{Kind: "sleep", SleepMs: 11000 + r.Intn(12000)})
+			g.add(Op{Kind: "set", Slot: 0, Keys: []string{k}, Vals: []string{g.val()}})
+			g.add(Op{Kind: "commit", Slot: 0})
+		case 0:
 			g.add(Op{Kind: "locate", Keys: []string{pick(r, append(append([]string{}, pool...), bounds[1:]...))}})
 		case 2:
 			g.add(Op{Kind: "locend", Keys: []string{pick(r, bounds[1:])}})
-		case 3:
+		case 3, 1:
 			lo, hi := g.scanBounds(false)
 			g.add(Op{Kind: "locrange", Lo: lo, Hi: hi})
 		case 4:
@@ -416,7 +471,7 @@ func (g *txnGen) episode() {
 }
 
 func genTxnActor(r *rand.Rand, sc *Scenario, client, ks, actor, episodes int, readOnly bool) Actor {
-	g := &txnGen{r: r, ks: ks, actor: actor, revUnb: sc.RevUnb, rBack: sc.Backend == "R"}
+	g := &txnGen{sc: sc, r: r, ks: ks, actor: actor, revUnb: sc.RevUnb, rBack: sc.Backend == "R"}
 	a := Actor{Client: client, Ks: ks, StartUs: 17 * (actor + 1)}
 	if readOnly {
 		for i := 0; i < episodes; i++ {
@@ -442,7 +497,7 @@ func genTxnActor(r *rand.Rand, sc *Scenario, client, ks, actor, episodes int, re
 // genFill is the setup program of a keyspace: two or three plain transactions that give most
 // keys a value carrying the keyspace's mark.
 func genFill(r *rand.Rand, sc *Scenario, client, ks, actor int) Actor {
-	g := &txnGen{r: r, ks: ks, actor: 100 + actor, rBack: sc.Backend == "R"}
+	g := &txnGen{sc: sc, r: r, ks: ks, actor: 100 + actor, rBack: sc.Backend == "R"}
 	for t, n := 0, 2+r.Intn(2); t < n; t++ {
 		g.begin(0, r.Intn(4) == 0)
 		pess := g.ops[len(g.ops)-1].Pess
@@ -498,7 +553,7 @@ func genLocks(cfg simkit.RunConfig, backend string) *Scenario {
 	for c, ks := range sc.Clients[:wc] {
 		sc.Setup = append(sc.Setup, genFill(r, sc, c, ks, c))
 	}
-	w := &Writer{Client: wc, Ks: ksA, Pess: r.Intn(3) == 0, CrashAt: r.Intn(7), CrashBefore: r.Intn(3) == 0}
+	w := &Writer{Client: wc, Ks: ksA, Pess: r.Intn(3) == 0, CrashAt: pick(r, []int{0, 0, 1, 1, 1, 2, 2, 3, 4, 6}), CrashBefore: r.Intn(3) == 0}
 	if backend == "R" {
 		switch r.Intn(3) {
 		case 0:
@@ -517,7 +572,7 @@ func genLocks(cfg simkit.RunConfig, backend string) *Scenario {
 	}
 	sc.Writer = w
 	// the survivor: first looks at the locks, then works
-	g := &txnGen{r: r, ks: ksA, actor: 0, revUnb: sc.RevUnb, rBack: backend == "R"}
+	g := &txnGen{sc: sc, r: r, ks: ksA, actor: 0, revUnb: sc.RevUnb, rBack: backend == "R"}
 	for i, n := 0, r.Intn(3); i < n; i++ {
 		switch r.Intn(3) {
 		case 0:
@@ -536,6 +591,12 @@ func genLocks(cfg simkit.RunConfig, backend string) *Scenario {
 		g.episode()
 	}
 	g.add(Op{Kind: "snapiter", TSRef: -1})
+	for i := range g.ops {
+		// DeleteRange removes the very records from which the dead writer's outcome is read at the end
+		if g.ops[i].Kind == "delrange" || g.ops[i].Kind == "destroyrange" {
+			g.ops[i] = Op{Kind: "locrange", Lo: g.ops[i].Lo, Hi: g.ops[i].Hi}
+		}
+	}
 	sc.Main = append(sc.Main, Actor{Client: 0, Ks: ksA, StartUs: 17, Ops: g.ops})
 	for c, ks := range sc.Clients[:wc] {
 		if c > 0 {
